@@ -2,6 +2,7 @@
 from __future__ import annotations
 
 import ast
+import re
 
 from sa.pyfront import dotted, call_name, calls_in, kwargs_of, params_of
 
@@ -681,4 +682,77 @@ def alias_polarity(ctx, py, rule="PY-ALIAS-POLARITY"):
             why = "alias mapping is %s" % [ast.unparse(a.value) for a in assigns]
         n += 1
         ctx.ob(rule, qn, ok, m.loc(assigns[0] if assigns else fn), why)
+    return n
+
+
+# =============================================================================================
+def optional_index_tests(ctx, py, rule="PY-OPTIONAL-INDEX"):
+    ctx.rule(rule, "in the parse_* functions an optional column index (set from header.index inside try / defaulting to None) is "
+                   "tested with `is not None`, never by truthiness: column 0 is a legal position (columns may come in any order)")
+    tm = py.mod("trees")
+    n = 0
+    for tbl, pname in TEXT_PARSERS.items():
+        fn = py.func("trees", pname)
+        opt = set()
+        for a in ast.walk(fn):
+            if isinstance(a, ast.Assign) and isinstance(a.value, ast.Constant) and a.value.value is None:
+                for t in a.targets:
+                    if isinstance(t, ast.Name) and t.id.endswith("_index"):
+                        opt.add(t.id)
+        for x in ast.walk(fn):
+            tests = []
+            if isinstance(x, (ast.If, ast.IfExp, ast.While)):
+                tests = [x.test]
+            for t in tests:
+                for sub in ast.walk(t):
+                    # a bare Name in boolean context: operand of not/and/or or the test itself
+                    cand = []
+                    if sub is t and isinstance(sub, ast.Name):
+                        cand.append(sub)
+                    if isinstance(sub, ast.BoolOp):
+                        cand += [v for v in sub.values if isinstance(v, ast.Name)]
+                    if isinstance(sub, ast.UnaryOp) and isinstance(sub.op, ast.Not) and isinstance(sub.operand, ast.Name):
+                        cand.append(sub.operand)
+                    for c in cand:
+                        if c.id in opt:
+                            n += 1
+                            ctx.ob(rule, "%s|%s" % (pname, c.id), False, tm.loc(x),
+                                   "`%s` is tested by truthiness: a column at position 0 is treated as absent" % c.id)
+        for v in sorted(opt):
+            uses = [c for c in ast.walk(fn) if isinstance(c, ast.Compare) and isinstance(c.left, ast.Name) and c.left.id == v
+                    and any(isinstance(o, (ast.IsNot, ast.Is)) for o in c.ops)]
+            n += 1
+            ctx.ob(rule, "%s|%s|is-not-None" % (pname, v), bool(uses), tm.loc(fn), "`%s is [not] None` guards the optional column" % v)
+    return n
+
+
+TABLE_PLURALS = {"individuals": "individual", "nodes": "node", "edges": "edge", "migrations": "migration", "sites": "site",
+                 "mutations": "mutation", "populations": "population", "provenances": "provenance"}
+
+
+def table_name_agreement(ctx, py, rule="PY-TABLE-NAMES"):
+    ctx.rule(rule, "a TreeSequence accessor named <table>s_<column> touches only that table: every `table_metadata_schemas.<x>` is "
+                   "the same table's schema and every low-level attribute it reads is the like-named <table>s_<column>")
+    m = py.mod("trees")
+    n = 0
+    for qn, fn in m.funcs.items():
+        if not qn.startswith("TreeSequence."):
+            continue
+        name = qn.split(".", 1)[1]
+        mt = re.match(r"(%s)_(\w+)$" % "|".join(TABLE_PLURALS), name)
+        if not mt:
+            continue
+        pl, col = mt.group(1), mt.group(2)
+        bad = []
+        for x in ast.walk(fn):
+            if isinstance(x, ast.Attribute):
+                d = dotted(x) or ""
+                ms = re.search(r"table_metadata_schemas\.(\w+)$", d)
+                if ms and ms.group(1) != TABLE_PLURALS[pl]:
+                    bad.append("uses table_metadata_schemas.%s" % ms.group(1))
+                mo = re.match(r"_?(%s)_(\w+)$" % "|".join(TABLE_PLURALS), x.attr)
+                if mo and mo.group(1) != pl:
+                    bad.append("reads %s" % x.attr)
+        n += 1
+        ctx.ob(rule, qn, not bad, m.loc(fn), "touches only %s" % pl if not bad else "%s %s" % (name, "; ".join(sorted(set(bad)))))
     return n
